@@ -4,7 +4,7 @@
    C++ result type), its interpreter over Machine.v / Ptr.v, and the fixed tactic that proves one generated
    program equal to Ptr.v's ptr_arith / ptr_index_gen for ALL pointers, operands, strides and region lists.
    The programs are regenerated from /repo's headers on every run (Gen_PtrPrograms.v, harness/m3_ptr.py). *)
-From RLBoxV Require Export Ptr.
+From RLBoxV Require Export Ptr Conv_proofs.
 Local Open Scope Z_scope.
 
 Inductive pbop := BAdd | BSub | BMul.
@@ -16,6 +16,8 @@ Inductive pexpr :=
 | PLit (v : Z)
 | PStride                                (* sizeof( *impl()): size of the pointee's tainted_volatile = guest-ABI size *)
 | PAppSize                               (* sizeof of the application pointee type *)
+| PExtent                                (* std::extent_v of the array type: its declared length *)
+| PElem (i : pexpr)                      (* &data[i] of the array the wrapper holds: start + i * element size of the memory it lives in *)
 | PCast (k : ikind) (e : pexpr)          (* IntegralCast / static_cast to k *)
 | PBin (op : pbop) (k : ikind) (a b : pexpr).   (* a op b computed in the C++ type k the AST gives the node *)
 Inductive pcond :=
@@ -30,7 +32,7 @@ Inductive pstmt :=
 
 Section Eval.
 Variable l : list region.
-Variables stride appsz p n : Z.
+Variables stride appsz len p n : Z.
 
 Fixpoint peval (e : pexpr) : Z :=
   match e with
@@ -40,6 +42,8 @@ Fixpoint peval (e : pexpr) : Z :=
   | PLit v => v
   | PStride => stride
   | PAppSize => appsz
+  | PExtent => len
+  | PElem i => p + peval i * stride
   | PCast k e' => wrap k (peval e')
   | PBin op k a b =>
     let x := peval a in let y := peval b in
@@ -117,11 +121,11 @@ Ltac ptr_ast_tac :=
 (* ---------- check-only bodies (void functions): detail::check_range_doesnt_cross_app_sbx_boundary ---------- *)
 Section Checks.
 Variable l : list region.
-Variables stride appsz p n : Z.
+Variables stride appsz len p n : Z.
 Fixpoint pchecks (prog : list pstmt) : res unit :=
   match prog with
   | [] => Ok tt
-  | PCheck c :: tl => if pceval l stride appsz p n c then pchecks tl else Abort
+  | PCheck c :: tl => if pceval l stride appsz len p n c then pchecks tl else Abort
   | PRet _ :: _ => Fault
   end.
 End Checks.
@@ -168,4 +172,54 @@ Ltac range_ast_tac :=
            | |- context [?a <? ?b] => destruct (Z.ltb_spec a b)
            end;
     cbn; try reflexivity; try (exfalso; lia)
+  end.
+
+(* ---------- the fixed-size-array branch of operator[] (C17) ----------
+   generated lemma: forall index values n of the index type K, array lengths (a size_t), starts and element sizes,
+   prun prog = Ptr.arr_index K n len start elsize *)
+Lemma wrap_id' k x : lo k <= x <= hi k -> wrap k x = x.
+Proof. intros H. apply wrap_id. apply in_range_intro. exact H. Qed.
+Lemma wrap_bounds k x : lo k <= wrap k x <= hi k.
+Proof. apply in_range_bounds. apply wrap_in_range. Qed.
+
+Ltac arr_bounds H := apply in_range_bounds in H; cbv [lo hi signed bits size] in H; cbn in H.
+Ltac arr_ast_tac :=
+  let l := fresh "l" in let stride := fresh "stride" in let len := fresh "len" in
+  let p := fresh "p" in let n := fresh "n" in
+  let Hn := fresh "Hn" in let Hl := fresh "Hl" in
+  intros l stride len p n Hn Hl; arr_bounds Hn; change M64 with 18446744073709551616 in Hl;
+  cbv [prun pceval peval pcompare arr_index bind check unsigned_of];
+  (* closed casts (literals) *)
+  repeat match goal with
+         | |- context [wrap ?k ?c] =>
+           lazymatch c with
+           | context [n] => fail
+           | context [len] => fail
+           | _ => let r := eval vm_compute in (wrap k c) in change (wrap k c) with r
+           end
+         end;
+  (* a cast of the array length (a size_t) to another 64-bit unsigned type *)
+  repeat match goal with
+         | |- context [wrap ?k len] => rewrite (wrap_id' k len) by (cbv [lo hi signed bits size]; cbn; lia)
+         end;
+  (* casts of the index that are the identity on its range *)
+  repeat match goal with
+         | |- context [wrap ?k n] => rewrite (wrap_id' k n) by (cbv [lo hi signed bits size]; cbn; lia)
+         end;
+  (* a cast of an already converted index: name the inner value with its bounds, drop the outer cast when it fits *)
+  repeat match goal with
+         | |- context [wrap ?k (wrap ?k2 n)] =>
+           let u := fresh "u" in let Hu := fresh "Hu" in
+           pose proof (wrap_bounds k2 n) as Hu; cbv [lo hi signed bits size] in Hu;
+           set (u := wrap k2 n) in *; cbn in Hu;
+           rewrite (wrap_id' k u) by (cbv [lo hi signed bits size]; cbn; lia)
+         end;
+  destruct (Z.leb_spec 0 n); cbn [andb]; try reflexivity;
+  (* the index is not negative from here on: the remaining casts of it are the identity *)
+  repeat match goal with
+         | |- context [wrap ?k n] => rewrite (wrap_id' k n) by (cbv [lo hi signed bits size]; cbn; lia)
+         end;
+  try reflexivity;
+  match goal with
+  | |- context [?a <? ?b] => destruct (a <? b); reflexivity
   end.
